@@ -134,6 +134,15 @@ def gen(rng, knobs):
             script.append(["send", json.dumps(["EVENT", ev])])
             if rng.random() < 0.15:
                 script.append(["barrier"])
+        if rng.random() < 0.25:
+            # a deletion replayed around its target: D names N. Sent as D,N,D or N,D,N,D - the replayed D is a
+            # duplicate (changes nothing), and the N accepted after D stays (the relay keeps no memory of D)
+            a = rng.choice(h.authors)
+            n_ev = h.regular(author=a, created_at=histgen.T0 - rng.choice([30, 40]))
+            d_ev = h.deletion(author=a, targets=[n_ev["id"]], created_at=histgen.T0 - rng.choice([5, 10]))
+            seq = rng.choice([[d_ev, n_ev, d_ev], [n_ev, d_ev, n_ev, d_ev], [d_ev, n_ev, d_ev, d_ev]])
+            at = rng.randint(1, len(script))
+            script[at:at] = [["send", json.dumps(["EVENT", e])] for e in seq]
         clients.append({"script": script})
     return {"backend": backend, "clients": clients,
             "sched": {"client": rng.choice([0.5, 1.0, 3.0]), "sql": rng.choice([0.3, 1.0, 3.0]),
@@ -203,7 +212,7 @@ def run(case, sim):
             m = parse(t)
             if isinstance(m, list) and len(m) == 4 and m[0] == "OK" and m[2] is True and isinstance(m[1], str):
                 accepted_ids.add(m[1])
-    acc_events = [s["ev"] for s in subs if s["ok"] is True and isinstance(s["ev"], dict)]
+    acc_subs = [s for s in subs if s["ok"] is True and isinstance(s["ev"], dict)]
     n_true = n_false = 0
     for s in subs:
         ev, cls = s["ev"], s["cls"]
@@ -230,14 +239,18 @@ def run(case, sim):
             excused = False
             try:
                 a = model.address(ev)
-                for o in acc_events:
+                for osub in acc_subs:
+                    o = osub["ev"]
                     if o is ev or o.get("id") == eid:
                         continue
                     try:
                         if a is not None and model.address(o) == a and o["created_at"] >= ev["created_at"]:
                             excused = True
                         if o["kind"] == 5 and o["pubkey"] == ev["pubkey"] and any(
-                                t[0] == "e" and len(t) > 1 and t[1] == eid for t in o["tags"]):
+                                t[0] == "e" and len(t) > 1 and t[1] == eid for t in o["tags"]) \
+                                and osub["t1"] >= s["t0"]:
+                            # (a deletion whose handling was over before this submission began cannot have
+                            #  removed it: the relay keeps no memory of deletions)
                             excused = True
                     except Exception:
                         continue
